@@ -304,8 +304,10 @@ def simplex_pairing(ctx):
             tg[T.show(t(s.targets[0]))] = (T.show(v[2][0]), T.show(v[2][1]))
             perm.add(T.show(v[2][1]))
     good = tg.get('sim', (None,))[0] == 'sim' and tg.get('fsim', (None,))[0] == 'fsim' and len(perm) == 1
-    inddef = _local_def(f, 'ind')
-    good = good and len(inddef) == 1 and t(inddef[0].value)[0] == 'call' and T.show(t(inddef[0].value)[2][0]) == 'fsim'
+    # the permutation: whatever local it is called, it is defined once, as argsort of the energies
+    pname = perm.pop() if len(perm) == 1 else None
+    inddef = _local_def(f, pname) if pname else []
+    good = good and len(inddef) == 1 and t(inddef[0].value)[0] == 'call' and T.show(t(inddef[0].value)[1]).endswith('argsort') and T.show(t(inddef[0].value)[2][0]) == 'fsim'
     ctx.check(good, 'NelderMeadSimplexSolver._Step#sort', 'sim and fsim are permuted by the same argsort(fsim)',
               'the simplex and its energies are not sorted by one and the same permutation of the energies: %s' % tg, f, sorts[0] if sorts else f.node)
 
@@ -314,7 +316,7 @@ def simplex_pairing(ctx):
 def powell_keeps_linesearch_pair(ctx):
     """_linesearch_powell returns (brent's minimum value, p + alpha_min*xi, alpha_min*xi); _Step unpacks every line search as (fval, x, direction) and stores that pair"""
     f = ctx.func('mystic.scipy_optimize:_linesearch_powell')
-    my = ctx.func('mystic.scipy_optimize:_linesearch_powell.myfunc')
+    my, _brent = callable_passed_to(ctx, f, 'brent')
     p, xi = f.args()[1], f.args()[2]
     fn = f.args()[0]
     b = T.Builder()
@@ -334,7 +336,7 @@ def powell_keeps_linesearch_pair(ctx):
     want_pt = T.simp(T.padd(('name', p), T.pmul(A, ('name', xi))))
     want_dir = T.simp(T.pmul(A, ('name', xi)))
     ctx.stats['terms_compared'] += 3
-    ctx.check(ret[1] == F and ret[2] == want_pt and ret[3] == want_dir and br[2] and br[2][0] == ('name', my.name),
+    ctx.check(ret[1] == F and ret[2] == want_pt and ret[3] == want_dir and br[2] and (br[2][0] == ('name', my.name) or br[2][0][0] == 'lambda'),
               '_linesearch_powell#return', 'returns (fret, p + alpha_min*xi, alpha_min*xi) of one brent call on myfunc',
               '_linesearch_powell returns %s' % T.show(ret)[:200], f, f.node.body[-1])
     alpha = my.args()[0]
